@@ -71,6 +71,7 @@ def normal_forms(ck, fb, fn):
 def run(ck, fb):
     _run0(ck, fb)
     r07f(ck, fb)
+    r07g(ck, fb)
 
 
 def _run0(ck, fb):
@@ -207,3 +208,51 @@ def r07f(ck, fb):
     ck.require(not late, 'R07f', 'async-handler:no-late-advance', late[0] if late else h.where(),
                'last_applied_log is advanced in the continuation of the apply future: a BuildSnapshot accepted in between reads the old value as the '
                'snapshot\'s last index')
+
+
+def r07g(ck, fb):
+    ck.rule('R07g', 'what a committed ConfigAdd does is the same on every node: ConfigActor::set_config treats an entry with unchanged md5 as a '
+                    'no-op unless the stored value carries the node-local mark `tmp`, which only set_tmp_config raises (on the follower a client '
+                    'published through, outside the log). On an EXISTING entry the mark may therefore be raised only when the temporary content '
+                    'differs from what the node holds (a test of the stored md5 / content against the new value on every path to `tmp = true`): '
+                    'raised on equal content, the next identical publish writes a history record and a new modification time on this node only, '
+                    'while the leader and a node that replays the log skip it')
+    b = ck.body('rnacos::config::core::ConfigActor::set_tmp_config', 'R07g')
+    if not b:
+        return
+    from rn.facts import pl_proj, pl_fields, op_const
+    sc = fb.bodies.get('rnacos::config::core::ConfigActor::set_config')
+    reads_tmp = sc is not None and 'tmp' in util.read_fields(sc)
+    if not reads_tmp:
+        ck.ok('R07g', 'set_config:ignores-tmp', sc.where() if sc else '-', 'set_config does not read the tmp mark: nothing node-local enters the decision')
+        return
+    stored = Taint(b, place_src=lambda p: pl_fields(p)[-1:] in (['md5'], ['content']))
+    newv = Taint(b, local_src=[3])
+    n = 0
+    for (i, j, st) in b.stmts():
+        d = st.get('d')
+        if not isinstance(d, dict):
+            continue
+        fs = [e.get('f') for e in pl_proj(d) if isinstance(e, dict) and 'f' in e]
+        if fs[-1:] != ['tmp']:
+            continue
+        rv = st.get('rv') or {}
+        c = op_const(rv.get('op')) if rv.get('k') == 'use' else None
+        if c is not None and str(c.get('v', c)).lower().startswith('false'):
+            continue
+        atoms = cfg.guard_atoms(b, i)
+        existing = any(a[0] == 'variant' and a[2] == 'Some' for a in atoms)
+        if not existing:
+            continue
+        n += 1
+        ok = False
+        for a in atoms:
+            sw = a[-1]
+            term = b.blocks[sw]['t'] if isinstance(sw, int) and sw < len(b.blocks) else None
+            if term is not None and term.get('k') == 'switch' and stored.op_tainted(term['discr']) and newv.op_tainted(term['discr']):
+                ok = True
+        ck.require(ok, 'R07g', 'set_tmp_config:mark-only-on-different-content', b.where(i),
+                   'set_tmp_config raises `tmp` on an existing entry without comparing it with the new value: publish a=1 through follower F twice - '
+                   'the second ConfigAdd is a no-op on the leader and on replay (1 history record) but a change on F (2 records, new '
+                   'modification time, listeners notified)', 'compared with the stored md5 / content first')
+    ck.floor('R07g', 'tmp marks on an existing entry', n, 1)
